@@ -17,6 +17,7 @@ from __future__ import annotations
 
 import hashlib
 import random as _stdrandom
+import sys
 import threading
 from typing import Any, Callable
 
@@ -95,6 +96,15 @@ class Sim:
         self.rng_aux = _stdrandom.Random(H(self.seed, "aux"))      # pickle timing, as_completed set order
         self.rng_entropy_seed = H(self.seed, "entropy")
         self.replay_decisions = list(sched["decisions"]) if sched.get("decisions") is not None else None
+        # pre-emption granularity: "seam" (draws, objective calls, pool operations) or "line" (additionally a
+        # bounded number of forced switches at line events inside pyvolutionary frames, via sys.settrace)
+        self.granularity = sched.get("granularity", "seam")
+        self.nline = 0
+        self.line_points: set = set()
+        if self.granularity == "line":
+            r = _stdrandom.Random(H(self.seed, "line", sched.get("seed", 0)))
+            horizon = int(sched.get("line_horizon", 6000))
+            self.line_points = set(r.sample(range(1, horizon), min(int(sched.get("preemptions", 4)), horizon - 1)))
         self.decisions: list[int] = []
         self._dec_i = 0
 
@@ -186,10 +196,35 @@ class Sim:
         self.threads.append(t)
         self.main = t
         _TLS.t = t
+        if self.granularity == "line":
+            sys.settrace(self._tracer)
         return t
 
     def release_main(self):
+        if self.granularity == "line":
+            sys.settrace(None)
         _TLS.t = None
+
+    # ------------------------------------------------------------------ line-granularity pre-emption
+    def _tracer(self, frame, event, arg):
+        if event == "call" and "/pyvolutionary/" in frame.f_code.co_filename:
+            return self._line_tracer
+        return None
+
+    def _line_tracer(self, frame, event, arg):
+        if event == "line" and not self.aborting and len(self.threads) > 1:
+            self.nline += 1
+            if self.nline in self.line_points:
+                cur = self.cur()
+                if cur is not None:
+                    others = [t for t in self._runnable() if t is not cur]
+                    if others:
+                        nxt = others[self.rng_sched.randrange(len(others))]
+                        self.count("line_preemptions")
+                        self._sched_digest.update(b"L" + bytes([nxt.tid & 0xFF]))
+                        self.event("preempt", f"{frame.f_code.co_name}:{frame.f_lineno}")
+                        self._switch(cur, nxt)
+        return self._line_tracer
 
     def spawn(self, fn: Callable[[], None], ctx: Ctx, name: str) -> SimThread:
         """Create a parked simulated thread; it runs only when the scheduler picks it."""
@@ -202,6 +237,8 @@ class Sim:
             t.sem.acquire()
             try:
                 if not self.aborting:
+                    if self.granularity == "line":
+                        sys.settrace(self._tracer)
                     fn()
             except SimAbort:
                 pass
